@@ -7,7 +7,7 @@
    profile-profile kernels, and (ii) planted alignments whose unique optimality is certified by an
    exact full-matrix computation and which the implementation must return exactly (DESIGN C07). *)
 From Coq Require Import ZArith List Bool Lia.
-From KV Require Import Base FP Params Weave Kernels Pipeline KernelProofs PipelineProofs.
+From KV Require Import Base FP Params Weave Kernels Pipeline KernelProofs PipelineProofs CostProofs.
 Import ListNotations.
 Local Open Scope Z_scope.
 
@@ -56,6 +56,38 @@ Print Assumptions C07_seqseq_runs.
 (* The full statement - "if an alignment beats every other alignment of a and b by a safe margin under every
    admissible costing of terminal runs, raw_path returns it" - needs the exact objective of DESIGN C07 and the
    Gotoh/Hirschberg optimality argument over the exact arithmetic; it is NOT stated as a theorem here. *)
+
+(* A necessary condition of optimality that concerns the kernel text only: the meetup must charge a gap crossing the middle
+   row what the passes charge for the same step.  The gb update of cell j of a row uses the terminal extension exactly in
+   the first cell of a pass that starts at the left border and in the last cell of one that ends at the right border ... *)
+Theorem C07_pass_terminal_cells : forall (A : alg) (R C : Type) (K : costs A R C) cells cols fi li r j,
+  length cells = S (length cols) -> (1 <= length cols)%nat -> (j <= length cols)%nat ->
+  c_gb A (nth j (row_step A R C K fi li cells cols r) (dead A)) =
+  gb_update A R C K (pass_terminal fi li (length cols) j) (nth j cells (dead A)) r.
+Proof. exact row_step_gb. Qed.
+Print Assumptions C07_pass_terminal_cells.
+
+(* ... and the meetup's scan (meet_col with the flag i = 0 below endb, meet_last at endb) uses it at exactly the same
+   columns, for every sub-problem.  The condition the C text used before fix b57ad5d ("the sub-problem starts at column 0")
+   does not have this property: with it Hirschberg returned non-optimal alignments (DESIGN section 11). *)
+Theorem C07_meetup_and_passes_agree_on_terminal_columns : forall startb endb len_b i,
+  0 <= startb -> startb < endb -> endb <= len_b -> startb <= i <= endb ->
+  meet_terminal_col endb len_b i = pass_terminal_col startb endb len_b i.
+Proof. exact meetup_and_passes_agree_on_terminal_columns. Qed.
+Print Assumptions C07_meetup_and_passes_agree_on_terminal_columns.
+
+Theorem C07_meetup_scan_flags : forall (A : alg) (M : mcosts A) sz el startb endb i f b fs bs best,
+  fs <> [] -> bs <> [] ->
+  meet_scan A M sz el startb endb i (f :: fs) (b :: bs) best =
+  meet_scan A M sz el startb endb (i + 1) fs bs (meet_col A M (i =? 0) (tiebreak A startb endb i) i f b best).
+Proof. exact meet_scan_flags. Qed.
+Print Assumptions C07_meetup_scan_flags.
+
+Theorem C07_old_meetup_condition_refuted :
+  exists startb endb len_b i, 0 <= startb /\ startb < endb /\ endb <= len_b /\ startb <= i < endb /\
+    (startb =? 0) <> pass_terminal_col startb endb len_b i.
+Proof. exact old_meetup_condition_refuted. Qed.
+Print Assumptions C07_old_meetup_condition_refuted.
 
 (* Non-vacuity / instance by evaluation: two DNA sequences under the 'dna' parameter set (5/-4, gpo 8,
    gpe 6, tgpe 0): the model returns the path with the single deletion *)
